@@ -1,4 +1,5 @@
 """C14 (delta encoding), C25 (shared poll) -- family `keyed`.  WORK IN PROGRESS (see docstring at the end of the build)."""
+import json
 import os
 import re
 from concurrent.futures import ThreadPoolExecutor
@@ -64,7 +65,16 @@ def _exh(c, family, module, cfg, workers=1, timeout=3000):
 
 
 def _witness(c, family, module, cfg):
+    """Counterexample of an as-coded configuration as a replayable behaviour. The quick tier replays the frozen copy
+    (spec/<family>/witness_<cfg>.json, produced by the same TLC run at build time; it is only a schedule - the verdict
+    comes from the monitors on the real frames); the thorough tier lets TLC produce it again."""
+    frozen = os.path.join(vf.ROOT, 'spec', family, 'witness_' + cfg.replace('_wh', '').replace('.cfg', '.json'))
+
     def run():
+        if c.tier == 'quick' and os.path.exists(frozen) and not cfg.endswith('_wh.cfg'):
+            wit = json.load(open(frozen))
+            c.log('witness %s: frozen TLC counterexample, %d steps' % (cfg, len(wit) - 1))
+            return wit
         w = c.tlc(family, module, cfg, workers=1, timeout=1500, expect_violation=True)
         wit = _error_trace(w['out']) if not w['ok'] else None
         if not wit:
